@@ -319,6 +319,11 @@ def queue_entry_rule(F, R):
         if not name.startswith("steel_rc::"):
             continue
         for i, b in fn.calls():
+            if re.search(r"DashMap<K,V,S>\}::entry$", b["callee"]) and any("Wrapper" in t for t in (b.get("targs") or [])):
+                n += 1      # the entry API keeps an existing queue by construction
+                R.inst("C19.q", "%s / entry() on QueueHandle.%s keeps an existing queue" % (fn.short(), _map_field(fn, b["args"][0])),
+                       True, nontrivial=False)
+                continue
             if not re.search(r"DashMap<K,V,S>\}::insert$", b["callee"]) or not any("Wrapper" in t for t in (b.get("targs") or [])):
                 continue
             n += 1
@@ -366,4 +371,4 @@ def queue_entry_rule(F, R):
                    "discarded — their objects stay flagged as queued, are never merged, and everything they hold leaks (a driver "
                    "thread that spawns workers and registers again before its next allocation grows by the workers' closures "
                    "every round)" % (fn.short(), fld, b.get("line")), fn.loc(b.get("line")), sample=True)
-    R.floor("C19.q", "inserts into the merge-queue maps", n, 2)
+    R.floor("C19.q", "sites that add an entry to the merge-queue maps (insert / entry)", n, 2)
